@@ -280,8 +280,31 @@ def urljoin(it, a, k):
     return VStr(_memo(it, key, build))
 
 
+def under(root, p):
+    """p denotes `root` itself or a location below it, with no '..' segment after the root."""
+    rs = z3.If(z3.SuffixOf(S("/"), root), root, z3.Concat(root, S("/")))
+    rest = z3.SubString(p, z3.Length(rs), z3.Length(p))
+    return z3.Or(
+        p == root,
+        p == rs,
+        z3.And(z3.PrefixOf(rs, p), z3.Not(has_dotdot_seg(rest)), z3.Not(z3.PrefixOf(S("/"), rest))),
+    )
+
+
 def install(reg):
     E = reg.externals
+    reg.spec_natives["under"] = lambda it, a, k: VBool(under(a[0].t, a[1].t))
+
+    def fs_paths_under(it, a, k):
+        root = a[0]
+        conj = []
+        for e in it.path.effects:
+            if e[0] in ("Fs", "Rmtree", "Mkdir") and len(e) > 1 and isinstance(e[1], VStr):
+                conj.append(under(root.t, e[1].t))
+        return VBool(z3.And(conj + [z3.BoolVal(True)]))
+
+    reg.spec_natives["fs_paths_under"] = fs_paths_under
+    reg.spec_natives["fs_access_count"] = lambda it, a, k: VInt(len([e for e in it.path.effects if e[0] in ("Fs", "Rmtree", "Mkdir")]))
     for mod in ("posixpath", "os.path"):
         E[f"{mod}.normpath"] = VNative(normpath, f"{mod}.normpath")
         E[f"{mod}.join"] = VNative(join, f"{mod}.join")
